@@ -18,6 +18,17 @@ import (
 // compile is core-code for converting the AST into a series of bytecodes.
 func (e *Eval) compile(node ast.Node) error {
 
+	//
+	// Give up as soon as the code compiled so far has outgrown what our
+	// sixteen-bit operands can address: Prepare refuses such a program
+	// anyway, and some constructs grow quickly - a switch compiles the
+	// block of a case once per value, so nested switches with several
+	// values per case double in size with every level.
+	//
+	if len(e.instructions) > 0xFFFF {
+		return fmt.Errorf("the program is too large: more than %d bytes of bytecode in one body", 0xFFFF)
+	}
+
 	switch node := node.(type) {
 
 	case *ast.Program:
